@@ -134,11 +134,16 @@ def path : List String → Val → R (Option Val)
   | _ :: _, _ => .ok none
 
 def isLower (c : Char) : Bool := 'a' ≤ c && c ≤ 'z'
+def isUpper (c : Char) : Bool := 'A' ≤ c && c ≤ 'Z'
+def isDigitC (c : Char) : Bool := '0' ≤ c && c ≤ '9'
+def nonAscii (c : Char) : Bool := c.toNat ≥ 128
 
-/-- a user variable name: starts with a lower-case ASCII letter -/
+/-- a user variable name: a lower-case ASCII letter (or a character outside ASCII) followed by
+    ASCII letters, digits and underscores (or characters outside ASCII) -/
 def userVarName (s : String) : Bool :=
   match s.toList with
-  | c :: _ => isLower c
+  | c :: r => (isLower c || nonAscii c) &&
+      r.all (fun x => isLower x || isUpper x || isDigitC x || x == '_' || nonAscii x)
   | [] => false
 
 /-- variable bindings, innermost first; a variable may be bound to a missing value -/
@@ -456,7 +461,8 @@ def overItems (f : Val → R (Option Val)) : List Val → R (List (Val × Option
 def asVar (gs : Fields) : R String :=
   match dget "as" gs with
   | none => .ok "this"
-  | some (.str s) => if userVarName s then .ok s else .error .opFail
+  | some (.str s) =>
+    if s = "CURRENT" then unmodelled else if userVarName s then .ok s else .error .opFail
   | some _ => .error .opFail
 
 mutual
@@ -506,7 +512,9 @@ mutual
       else if k = "$let" then
         match dget "vars" gs, dhas "in" gs with
         | some (.doc vs), true =>
-          if gs.length ≠ 2 || !(vs.all (fun kv => userVarName kv.1)) then .error .opFail
+          if gs.length ≠ 2 then .error .opFail
+          else if vs.any (fun kv => kv.1 = "CURRENT") then unmodelled   -- rebinding `$$CURRENT`
+          else if !(vs.all (fun kv => userVarName kv.1)) then .error .opFail
           else do
             let bs ← sVarsAt root env gs
             sAt root (bs.reverse ++ env) "in" gs
